@@ -246,6 +246,13 @@ static int p_action(char *op, int guard, char *a1, char *a2, char *rest)
 {
 	int i;
 	(void)guard;
+	if (!strcmp(op, "procfork")) {
+		/* the whole program fork()s and the scenario goes on in the CHILD: getpid() answers differently from now on (what the
+		 * parent had registered with iv_signal is inherited and must be reset by the first registration in the child) */
+		vpid = a1 ? atoi(a1) : vpid + 1;
+		mt_log("PID %d\n", vpid);
+		return 1;
+	}
 	if (!strcmp(op, "sigreg")) {
 		i = mt_objnum(a1, 's');
 		if (S[i].exists != 1 || S[i].owner != mt_me() || S[i].isreg) return 1;
